@@ -139,6 +139,9 @@ def _worker(task):
         if tier == 'quick':
             # one representative per dtype class (uint32, float vector, int16-ratio with dependency, eigenvector group)
             others = ['N', 'x_com', 'sigmavMin_com', 'sigmav_eigenvecsMid_com'] + (['N_merge'] if cleaned else [])
+        # dependency siblings: the columns X is derived from / shares raw inputs with, in both orders
+        sib = {'r': ['r100_com', 'r100_L2com'], 's': ['sigmav3d_com', 'sigmav3d_L2com', 'r100_com', 'r100_L2com']}
+        others_for = lambda X: others + [y for y in sib.get(X[0], []) if y not in others and X.endswith(y.split('_', 1)[1])]      # noqa: E731
         for k, X in enumerate(names):
             if k % nch != ch:
                 continue
@@ -147,7 +150,7 @@ def _worker(task):
             if not X.startswith(('npstart', 'npout')):
                 # index columns are re-based onto the loaded subsample table (C01), so they legitimately differ with subsamples on
                 variants += [([X], dict(A=True, pos=True)), ([X], dict(A=True, B=True, pid=True))]
-            for Y in others:
+            for Y in others_for(X):
                 if Y != X:
                     variants += [([X, Y], False), ([Y, X], False)]
             variants += [('DEFAULT_FIELDS', False)]
